@@ -152,7 +152,12 @@ func (c *loopCloud) CreateNetworkInterfaceV2(ctx context.Context, opts ...aliyun
 			attached++
 		}
 	}
-	if len(c.enis)+1 > c.quota {
+	if c.w.stalePass && c.w.snap != nil {
+		// the pass works from an old object: it is judged against what that object records
+		if rec := len(c.w.snap.Status.NetworkInterfaces); rec+1 > c.quota {
+			c.w.viol("C08/cloud/create-over-quota", fmt.Sprintf("CreateNetworkInterface with %d interfaces in the (stale) record the pass started from, %d allowed", rec, c.quota))
+		}
+	} else if len(c.enis)+1 > c.quota {
 		c.w.viol("C08/cloud/create-over-quota", fmt.Sprintf("CreateNetworkInterface with %d interfaces of the node already there (%d attached), %d allowed", len(c.enis), attached, c.quota))
 	}
 	if n4 > c.cap4 || n6 > c.cap4 {
@@ -275,7 +280,8 @@ func (c *loopCloud) assign(name, eniID string, n int, six bool) ([]aliyunClient.
 	if have+n > c.cap4 {
 		c.w.viol("C08/cloud/assign-over-quota", fmt.Sprintf("%s(%s, %d) with %d addresses of that family %s, %d allowed", name, eniID, n, have, what, c.cap4))
 	}
-	if c.w.faults == 0 && real+n > c.cap4 {
+	if c.w.faults == 0 && !c.w.stalePass && real+n > c.cap4 {
+		// (a pass that started from an old object is judged against that object only)
 		// no cloud call ever failed, so the record cannot legitimately be behind the cloud: the interface's real content counts
 		c.w.viol("C08/cloud/assign-over-quota", fmt.Sprintf("%s(%s, %d) with %d addresses of that family on the interface in the cloud (no call has failed), %d allowed", name, eniID, n, real, c.cap4))
 	}
@@ -356,8 +362,14 @@ type loopWorld struct {
 	conflicts      int  // status writes of the Node CR answered with a conflict
 	conflict       bool // the next status write of the Node CR is answered with a conflict
 	conflictFired  bool // … and it was, in the current pass
-	lostWrite      bool // a pass that changed the cloud lost its status write and no full synchronisation has happened since
-	described      bool // the current pass has read the node's interfaces from the cloud
+	staleRead      bool // the controller's next read of the Node CR is served from its cache: the object as it was one pass ago
+	stalePass      bool // … which happened in the current pass
+	rs             *Rng // the stale-read choices
+	noStale        bool // a regression seed: the history it was kept for had no stale read
+	prevSnap       *networkv1beta1.Node
+	podAddr        map[string]string // pod/uid -> the IPv4 address it reports (taken from the persisted record)
+	lostWrite      bool              // a pass that changed the cloud lost its status write and no full synchronisation has happened since
+	described      bool              // the current pass has read the node's interfaces from the cloud
 	pass           int
 	lostPass       map[int]bool   // passes whose status write was lost
 	delFailedPass  map[string]int // interface -> pass in which its deletion failed without effect
@@ -420,7 +432,10 @@ func (w *loopWorld) checkNotBound(call, eniID string, ips []string) {
 				}
 			}
 			name := strings.TrimPrefix(ip.PodID, "ns/")
-			_, exists := w.pods[name]
+			uid, exists := w.pods[name]
+			if exists && ip.PodUID != "" && uid != ip.PodUID {
+				exists = false // a later pod of the same name: the binding is the earlier instance's
+			}
 			if exists || (ip.PodUID != "" && !w.reported[ip.PodUID]) {
 				w.viol("C03/cloud/"+call+"-bound-address", fmt.Sprintf("%s on %s takes away %s, bound to %s (exists=%v, teardown reported=%v)", call, eniID, k, ip.PodID, exists, w.reported[ip.PodUID]))
 			}
@@ -459,6 +474,17 @@ func newLoopWorld(c *Ctx, r *Rng, focus string) *loopWorld {
 		WithStatusSubresource(&networkv1beta1.Node{}, &corev1.Node{}, &networkv1beta1.NodeRuntime{}).
 		WithIndex(&corev1.Pod{}, "spec.nodeName", func(o client.Object) []string { return []string{o.(*corev1.Pod).Spec.NodeName} }).
 		WithInterceptorFuncs(interceptor.Funcs{
+			Get: func(ctx context.Context, c client.WithWatch, key client.ObjectKey, obj client.Object, opts ...client.GetOption) error {
+				if n, ok := obj.(*networkv1beta1.Node); ok && w.staleRead && w.prevSnap != nil {
+					// a lagging informer cache (or an old leader still running): the pass starts from the object as it was before
+					// the previous pass wrote it
+					w.staleRead, w.stalePass = false, true
+					w.prevSnap.DeepCopyInto(n)
+					w.trace = append(w.trace, "  the Node CR was read from a stale cache (resourceVersion "+n.ResourceVersion+")")
+					return nil
+				}
+				return c.Get(ctx, key, obj, opts...)
+			},
 			SubResourceUpdate: func(ctx context.Context, c client.Client, sub string, obj client.Object, opts ...client.SubResourceUpdateOption) error {
 				if _, ok := obj.(*networkv1beta1.Node); ok && w.conflict {
 					w.conflict = false
@@ -518,7 +544,7 @@ func (w *loopWorld) reportPodIPs() {
 	n := w.node()
 	for _, ni := range n.Status.NetworkInterfaces {
 		for _, ip := range ni.IPv4 {
-			if ip.PodID == "" || ip.Status != networkv1beta1.IPStatusValid {
+			if ip.PodID == "" || ip.IP == "" || ip.Status != networkv1beta1.IPStatusValid {
 				continue
 			}
 			name := strings.TrimPrefix(ip.PodID, "ns/")
@@ -529,15 +555,34 @@ func (w *loopWorld) reportPodIPs() {
 			if w.cl.Get(context.Background(), k8stypes.NamespacedName{Namespace: "ns", Name: name}, p) == nil && p.Status.PodIP == "" {
 				p.Status.PodIP = ip.IP
 				_ = w.cl.Status().Update(context.Background(), p)
+				if w.podAddr == nil {
+					w.podAddr = map[string]string{}
+				}
+				for other, addr := range w.podAddr {
+					on := strings.SplitN(other, "/", 2)
+					if addr == ip.IP && on[0] != name && w.pods[on[0]] == on[1] {
+						w.viol("C02/loop/two-pods-report-one-address", fmt.Sprintf("%s is published as the address of %s while %s, which still exists, reports it as well", ip.IP, name, on[0]))
+					}
+				}
+				w.podAddr[name+"/"+w.pods[name]] = ip.IP
 			}
 		}
 	}
 }
 
 func (w *loopWorld) reconcile() (int, error) {
-	w.snap = w.node()
+	armed := w.staleRead
+	w.staleRead = false // the harness's own read is not the controller's
+	cur := w.node()
+	w.staleRead = armed
+	w.snap = cur
+	if w.staleRead && w.prevSnap != nil && w.prevSnap.ResourceVersion != cur.ResourceVersion {
+		w.snap = w.prevSnap // what the controller will start from, and what its requests are judged against
+	} else {
+		w.staleRead = false
+	}
 	w.pass++
-	w.described, w.conflictFired = false, false
+	w.described, w.conflictFired, w.stalePass = false, false, false
 	before := len(w.cloud.log)
 	time.Sleep(1050 * time.Millisecond) // the reconciler refuses to run twice within a second
 	_, err := w.rec.Reconcile(context.Background(), reconcile.Request{NamespacedName: k8stypes.NamespacedName{Name: "node-a"}})
@@ -549,6 +594,17 @@ func (w *loopWorld) reconcile() (int, error) {
 	}
 	w.cloud.mu.Unlock()
 	w.trace = append(w.trace, fmt.Sprintf("reconcile err=%v", err != nil))
+	w.staleRead = false
+	w.prevSnap = cur
+	if w.stalePass {
+		w.c.Count("loop-stale-pass")
+		if err != nil {
+			w.c.Count("loop-stale-pass-write-refused")
+		}
+	}
+	if w.stalePass && err != nil {
+		w.conflictFired = true // the API server refused the write of a pass that started from an old object
+	}
 	if w.conflictFired {
 		if w.lostPass == nil {
 			w.lostPass = map[int]bool{}
@@ -565,6 +621,18 @@ func (w *loopWorld) reconcile() (int, error) {
 // checkRecord: C02 on the persisted record
 func (w *loopWorld) checkRecord() {
 	n := w.node()
+	// a pod that reports an address (it was taken from a persisted record) is never bound to another one
+	for _, ni := range n.Status.NetworkInterfaces {
+		for k, ip := range ni.IPv4 {
+			if ip.PodID == "" {
+				continue
+			}
+			name := strings.TrimPrefix(ip.PodID, "ns/")
+			if want, ok := w.podAddr[name+"/"+w.pods[name]]; ok && w.pods[name] != "" && want != k {
+				w.viol("C02/loop/reported-address-changed", fmt.Sprintf("%s reports %s (it was bound to it in the published record) and is now bound to %s", ip.PodID, want, k))
+			}
+		}
+	}
 	seen := map[string]string{}
 	for id, ni := range n.Status.NetworkInterfaces {
 		for _, m := range []map[string]*networkv1beta1.IP{ni.IPv4, ni.IPv6} {
@@ -657,6 +725,13 @@ func (w *loopWorld) runCase() {
 			w.conflict = true
 			w.conflicts++
 			w.trace = append(w.trace, "fault status-conflict")
+		}
+		// the stale-read choice has its own generator, so that adding it left the operation choices of every case seed as they were
+		// (the regression seeds of runIpamLoop were found without it and run without it)
+		if w.rs.Intn(3) == 0 && !w.noStale && !w.noFaults && w.prevSnap != nil {
+			w.staleRead = true
+			w.conflicts++
+			w.trace = append(w.trace, "fault stale-read")
 		}
 		w.reconcile()
 		w.conflict = false
@@ -863,6 +938,9 @@ func runIpamLoops(c *Ctx, focus string) {
 	runIpamLoopSeeds(c, focus, seeds)
 }
 
+// the case seeds kept for what they once showed; their histories are fixed: no stale reads are mixed into them
+var loopRegressionSeeds = map[uint64]bool{13257447658396619023: true, 187150356967577528: true, 2798650243160690182: true}
+
 // runIpamLoopSeeds runs the closed-loop cases of the given seeds; a violation's trace starts with the line
 // `ip.loop <seed>`, which replays exactly that case (the loop is deterministic given its seed).
 func runIpamLoopSeeds(c *Ctx, focus string, seeds []uint64) {
@@ -878,6 +956,8 @@ func runIpamLoopSeeds(c *Ctx, focus string, seeds []uint64) {
 			defer func() { <-sem }()
 			sub := &Ctx{Tier: c.Tier, Seed: seed, R: NewRng(seed), Dist: map[string]int{}, Extra: map[string]any{}}
 			w := newLoopWorld(sub, sub.R, focus)
+			w.rs = NewRng(seed ^ 0x5ca1ab1e)
+			w.noStale = loopRegressionSeeds[seed]
 			func() {
 				defer func() {
 					if r := recover(); r != nil {
